@@ -222,8 +222,23 @@ def one_validate(seed, i, res):
             try:
                 if mkind == "message":
                     t = MessageType(mt, fields, "")
-                    if rng.random() < 0.5:
+                    r_ = rng.random()
+                    if r_ < 0.25:
                         t(**values).write(logger)
+                    elif r_ < 0.4:
+                        # the message is handed an action of the captured logger explicitly
+                        holder = eliot.start_action(logger, "c14:holder")
+                        if rng.random() < 0.5:
+                            t(**values).write(action=holder)
+                        else:
+                            t(**values).write(logger, holder)
+                        holder.finish()
+                        res["counters"]["messages_written_to_explicit_action"] = res["counters"].get("messages_written_to_explicit_action", 0) + 1
+                    elif r_ < 0.55:
+                        # written to the captured logger while an action bound to ANOTHER logger object is current
+                        with eliot.start_action(MemoryLogger(), "c14:foreign"):
+                            t(**values).write(logger)
+                        res["counters"]["messages_written_inside_foreign_action"] = res["counters"].get("messages_written_inside_foreign_action", 0) + 1
                     else:
                         logger.write(dict(values, message_type=mt, task_uuid="u", task_level=[1], timestamp=1.0), t._serializer)
                 elif mkind == "action_start":
@@ -248,7 +263,12 @@ def one_validate(seed, i, res):
                     try:
                         raise rng.choice([excs.UserError("tb"), OSError(3, "os")])
                     except Exception:
-                        write_traceback(logger)
+                        if rng.random() < 0.3:
+                            with eliot.start_action(MemoryLogger(), "c14:foreign"):
+                                write_traceback(logger)
+                            res["counters"]["tracebacks_written_inside_foreign_action"] = res["counters"].get("tracebacks_written_inside_foreign_action", 0) + 1
+                        else:
+                            write_traceback(logger)
                     if not leave_traceback:
                         logger.flush_tracebacks(Exception)
                     this_rejects = False
